@@ -61,6 +61,18 @@ Theorem compiled_value_round_trip : forall c, endian_ok (c_endian c) -> forall f
   forall v wpos bs, has_tyc c (TStruct nm fs false) [] v -> write_ty c (TStruct nm fs false) v wpos = Ok bs ->
     forall pre rest, exists v', read_compiled c fuel false fs (pre ++ bs ++ rest) (zlen pre) = Ok (v', zlen pre + zlen bs) /\ strip v' = strip v.
 Proof. exact CompiledRoundTrip.compiled_parse_dump_identity. Qed.
+(* ... and structures with bit fields mixed in, through the compiled reader *)
+Theorem compiled_mixed_bit_field_structure_round_trip : forall c, endian_ok (c_endian c) -> forall fuel nm segs p,
+  segs_ok c (Some 0) segs -> NoDup (map f_name (fields_of segs)) ->
+  Forall (plain_ok c (fun f => read_ty c fuel (f_ty f)) (fun f => write_ty c (f_ty f)) (fun f => has_tyc c (f_ty f))) segs ->
+  Forall (fun f => f_off f = None /\ CompilerProps.cls' c fuel f) (fields_of segs) -> CompilerProps.bsize c (fields_of segs) <= 9223372036854775807 ->
+  compile_plan c false (fields_of segs) = Ok p ->
+  forall vals sizes wpos bs,
+    typed_segs (fun f => has_tyc c (f_ty f)) vals segs [] -> map fst vals = map f_name (fields_of segs) ->
+    write_ty c (TStruct nm (fields_of segs) false) (VStruct vals sizes) wpos = Ok bs ->
+    forall pre rest, exists v',
+      read_compiled c fuel false (fields_of segs) (pre ++ bs ++ rest) (zlen pre) = Ok (v', zlen pre + zlen bs) /\ strip v' = strip (VStruct vals sizes).
+Proof. exact CompiledRoundTrip.compiled_mixed_round_trip. Qed.
 (* writing never alters a number: a value that does not fit the width is rejected, a value that fits decodes to itself *)
 Theorem out_of_range_is_rejected : forall e n signed v, fits n signed v = false -> int_to_bytes e n signed v = Err ERange.
 Proof. exact int_reject. Qed.
@@ -78,6 +90,7 @@ Print Assumptions value_round_trip_dynamic.
 Print Assumptions value_round_trip_aligned.
 Print Assumptions mixed_bit_field_structure_round_trip.
 Print Assumptions compiled_value_round_trip.
+Print Assumptions compiled_mixed_bit_field_structure_round_trip.
 Print Assumptions out_of_range_is_rejected.
 
 (* non-vacuity *)
@@ -158,3 +171,15 @@ Qed.
 Example exm_run : exists bs, dumps ex_cfg exm_ty exm_val = Ok bs /\ zlen bs = 10 /\
   match read_top ex_cfg exm_ty ([9] ++ bs ++ [1; 2]) 1 with Ok (v, p) => p = 11 /\ strip v = strip exm_val | Err _ => False end.
 Proof. eexists. split; [vm_compute; reflexivity|]. split; [vm_compute; reflexivity|]. vm_compute. split; reflexivity. Qed.
+Example exm_compiled : Forall (fun f => f_off f = None /\ CompilerProps.cls' ex_cfg 50 f) (fields_of exm_segs) /\ (exists p, compile_plan ex_cfg false (fields_of exm_segs) = Ok p) /\
+  exists bs, dumps ex_cfg exm_ty exm_val = Ok bs /\ match read_compiled ex_cfg 50 false (fields_of exm_segs) ([9] ++ bs ++ [1; 2]) 1 with Ok (v, p) => p = 11 /\ strip v = strip exm_val | Err _ => False end.
+Proof.
+  split; [|split].
+  - repeat (apply Forall_cons; [split; [reflexivity|];
+        first [ left; split; [reflexivity|]; left; vm_compute; discriminate
+              | left; split; [reflexivity|]; right; split; [reflexivity|]; apply CompilerProps.sub_ok_of_shift; [vm_compute; reflexivity|intros n H; vm_compute in H; try discriminate; injection H as <-; lia]
+              | right; do 4 eexists; repeat split; try reflexivity; try discriminate ]|]).
+    apply Forall_nil.
+  - eexists. vm_compute. reflexivity.
+  - eexists. split; [vm_compute; reflexivity|]. vm_compute. split; reflexivity.
+Qed.
